@@ -3,6 +3,7 @@ import LenaModel.Lemmas.C07
 import LenaModel.Lemmas.C07Update
 import LenaModel.Lemmas.C07Nested
 import LenaModel.Lemmas.C07Level
+import LenaModel.Lemmas.C07Tok
 /-! # C07 — property theorems (nested-dictionary algebra)
 
 Dictionaries are slot vectors over the key alphabet of a case (`Model/Val.lean`); all theorems are
@@ -760,5 +761,75 @@ example : interN 2 2 [[L 0, D [L 1, D [L 5, L 6]]], [L 0, D [L 1, D [L 5, L 7]]]
     interN 2 3 [[L 0, D [L 1, D [L 5, L 6]]], [L 0, D [L 1, D [L 5, L 7]]]] = [L 0, D [L 1, D [L 5, none]]] := by
   decide +kernel
 
+
+/-! ## "as a deep copy", "d1 or some of its subdictionaries may be returned directly" (token model)
+
+`Model/C07Tok.lean`: every mutable object has an identity; `c` is the first identity not in use when
+the function is called, so the objects that exist before the call — the arguments among them — have
+identities `< c`. -/
+
+/-- the token model computes the same values as the value model -/
+theorem interT_value (n : Nat) (lv : Int) (c t : Nat) (l0 : TSlots α) (ds : List (Slots α)) :
+    eraseV (interT n lv c (some (t, l0)) ds).1 = .dict (interN n lv (eraseL l0 :: ds)) ∧
+    eraseV (interT n lv c none ds).1 = .dict (Val.empty n : Slots α) := by
+  constructor
+  · simp only [interT, interN]
+    rw [erase_interTFold, erase_copyL]
+  · simp [interT, erase_emptyT, Val.empty]
+
+/-- "intersection … as a deep copy": every mutable object reachable from the result was created
+during the call … -/
+theorem inter_is_copy (n : Nat) (lv : Int) (c : Nat) (d0 : Option (Nat × TSlots α)) (ds : List (Slots α)) :
+    ∀ t ∈ toksV (interT n lv c d0 ds).1, c ≤ t := by
+  cases d0 with
+  | none =>
+    intro t ht
+    simp only [interT, emptyT, toksV, List.mem_cons] at ht
+    rcases ht with ht | ht
+    · omega
+    · exact FreshL_replicate_none c n t ht
+  | some p =>
+    obtain ⟨t0, l0⟩ := p
+    have hcp := copyL_fresh l0 (c + 1)
+    simp only [interT]
+    exact interTFold_fresh lv c c (Nat.le_refl _) ds _ _ (hcp.2.mono (by omega)) (by omega)
+
+/-- … hence it shares nothing with any object that existed before (its arguments in particular) -/
+theorem inter_shares_nothing (n : Nat) (lv : Int) (c : Nat) (d0 : Option (Nat × TSlots α)) (ds : List (Slots α))
+    (old : List Nat) (hold : ∀ t ∈ old, t < c) :
+    ∀ t ∈ toksV (interT n lv c d0 ds).1, t ∉ old := by
+  intro t ht h
+  have := inter_is_copy n lv c d0 ds t ht
+  have := hold t h
+  omega
+
+-- `intersection({"a": 7, "b": {"a": [8]}}, {"a": 7, "b": {"a": [8], "b": 9}})`, objects 0, 1, 2 exist, 3 is the next identity:
+-- the result is the new dictionary 3 (the deep copy; its parts 4, 5 are dropped again) holding the new objects 6, 7
+-- that the recursive call made for key "b" (a copy of the copy)
+example : toksV (interT 2 (-1) 3 (some (0, [some (.leaf [] 7), some (.dict 1 [some (.leaf [2] 8), none])]))
+      [[some (.leaf 7), some (.dict [some (.leaf 8), some (.leaf 9)])]]).1 = [3, 6, 7] := by
+  simp [interT, interTFold, interTL, interTO, copyL, copyV, eraseV, eraseL, toksV, toksL, nonEmpty]
+example : ∀ t ∈ [0, 1, 2], t < 3 := by decide
+
+/-- the token model of `difference` computes the same values as the value model -/
+theorem diffT_value (truthy : α → Bool) (lv : Int) (v : TVal α) (w : Val α) (c : Nat) :
+    eraseV (diffTV truthy lv v w c).1 = diffV truthy lv (eraseV v) w :=
+  erase_diffTV truthy lv v w c
+
+/-- "d1 or some of its subdictionaries may be returned directly": every mutable object reachable from the
+difference is an object of `d1` or new — never one of `d2` or of anything else -/
+theorem diff_objects (truthy : α → Bool) (lv : Int) (v : TVal α) (w : Val α) (c : Nat) :
+    ∀ t ∈ toksV (diffTV truthy lv v w c).1, t ∈ toksV v ∨ c ≤ t :=
+  (diffTV_from truthy lv v w c).2
+
+-- `difference({"a": 7, "b": {"a": [8], "b": {}}}, {"a": 7, "b": {"a": [8], "b": 9}})`: two new dictionaries (4, 5)
+-- and the empty dictionary object 3 of `d1` itself
+example : toksV (diffTV (fun i => i != 0) (-1)
+      (.dict 0 [some (.leaf [] 7), some (.dict 1 [some (.leaf [2] 8), some (.dict 3 [none, none])])])
+      (.dict [some (.leaf 7), some (.dict [some (.leaf 8), some (.leaf 9)])]) 4).1 = [4, 5, 3] ∧
+    eraseV (diffTV (fun i => i != 0) (-1)
+      (.dict 0 [some (.leaf [] 7), some (.dict 1 [some (.leaf [2] 8), some (.dict 3 [none, none])])])
+      (.dict [some (.leaf 7), some (.dict [some (.leaf 8), some (.leaf 9)])]) 4).1 =
+      (.dict [none, some (.dict [none, some (.dict [none, none])])] : Val Nat) := by decide +kernel
 
 end Lena.C07
